@@ -20,9 +20,13 @@ def c05(s):
         if t.outcome[0] != 2 or t.outcome[1] != LOGOUT_SUCCESS[t.kind]:
             continue
         dels = [op for (_, op, _, _) in t.ops if op[0] == 3 and op[2] >= 0]
-        if not dels:
-            continue
         k = thread_key(t)
+        # "a logout for a session": it deleted the entry, or it presented that session's own cookie (key and data key of the entry
+        # that existed when the logout arrived), or it is a front-channel logout naming the session id
+        e_at_spawn = s.snaps[t.spawn_idx][0].get(k) if k is not None else None
+        genuine = t.kind.startswith("fc") or (e_at_spawn is not None and e_at_spawn.dek == t.dek)
+        if k is None or not (dels or genuine):
+            continue
         i0 = t.done_idx
         # until a later login for the same sid
         end = len(s.events)
@@ -308,6 +312,32 @@ def c06(s):
             out.append(("c06-accepted-after-end", "session accepted / refreshed after its maximum lifetime", {"thread": t.tid}))
         if inactive and not ended and (accepted or grants):
             out.append(("c06-accepted-after-inactivity", "session accepted / refreshed after the inactivity timeout", {"thread": t.tid}))
+        # deadlines that pass while the request is under way (e.g. while it waits for the refresh lock): the property speaks of
+        # the instant of the decision - no refresh grant may be sent, and no request accepted on the strength of a read, after the deadline
+        all_reads = [(i, now) for (i, op, _, now) in t.ops if op[0] == 1 and op[2] == 1]
+        for (gi, op, _, _) in t.ops:
+            if op[0] != 6:
+                continue
+            before = [(i, now) for (i, now) in all_reads if i < gi]
+            if not before:
+                continue
+            (i, now) = before[-1]      # the read on which the decision to refresh rests
+            e = s.snap_before(i)[0].get(t.k)
+            if e is None or e.dek != t.dek:
+                continue
+            if now > e.ends:
+                out.append(("c06-grant-after-end", "refresh grant sent although the session had ended when it was last read", {"thread": t.tid, "event_index": gi}))
+            elif e.timeout != -1 and now > e.timeout:
+                out.append(("c06-grant-after-inactivity", "refresh grant sent although the inactivity timeout had passed when the session was last read", {"thread": t.tid, "event_index": gi}))
+        reads = [(i, now) for (i, op, _, now) in t.ops if op[0] == 1 and op[2] == 1]
+        if reads and accepted and not (ended or inactive):
+            (i, now) = reads[-1]
+            e = s.snap_before(i)[0].get(t.k)
+            if e is not None and e.dek == t.dek:
+                if now > e.ends:
+                    out.append(("c06-accepted-after-end", "request accepted although its last read of the session happened after the maximum lifetime", {"thread": t.tid, "event_index": i}))
+                elif e.timeout != -1 and now > e.timeout:
+                    out.append(("c06-accepted-after-inactivity", "request accepted although its last read of the session happened after the inactivity timeout", {"thread": t.tid, "event_index": i}))
         if not s.sequential(t) or t.faulted or t.cancelled:
             continue
         if ended and t.kind in ("i", "r") and t.outcome[:2] != [2, 401]:
